@@ -1,4 +1,5 @@
 import OdcGeo.Model.C04
+import OdcGeo.Model.C04Roi
 import OdcGeo.Drv.C17
 namespace OdcGeo.C04.Drv
 open OdcGeo OdcGeo.IO OdcGeo.C17 OdcGeo.C04 OdcGeo.NpArray
@@ -39,8 +40,35 @@ def irange (n : Int) : List Int := (List.range n.toNat).map fun (k : Nat) => (k 
 def idxVectors (shape : List Int) : List (List Int) :=
   (ndindex (shape.map Int.toNat)).map fun v => v.map fun (k : Nat) => (k : Int)
 
+/-- `N` (None), `1=<pidx>` (bare index) or `t=[pidx,…]` (tuple; `t=[]` is the empty tuple) -/
+def parseRoi? (s : String) : Option Roi :=
+  if s = "N" then some .none
+  else match s.splitOn "=" with
+    | ["1", p] => (parsePIdx? p).map Roi.single
+    | ["t", l] => (parseList? parsePIdx? l).map Roi.tuple
+    | _ => none
+
+def fmtNat (n : Nat) : String := toString n
+
 def run (args : List String) : Option String :=
   match args with
+  | ["normroi", shape, axis, roi] => do
+    let shape ← parseInts? shape; let axis ← parseNat? axis; let roi ← parseRoi? roi
+    pure (fmtRes (fun (ws, sq) => s!"{fmtList fmtNS ws} {fmtList fmtNat sq}") (normRoi shape axis roi))
+  | ["asmnd", chy, chx, keys, lead, trail, roi, m] => do
+    let chy ← parseInts? chy; let chx ← parseInts? chx
+    let keys ← parseList? parsePair? keys
+    let lead ← parseInts? lead; let trail ← parseInts? trail
+    let roi ← parseRoi? roi
+    let m ← parseInt? m
+    let a : Assembler (Option Int) :=
+      { chy, chx, present := keys, lead, trail,
+        blk := fun key l y x t => some (cellVal m key l y x t) }
+    pure (fmtRes (fun (out, (sl, sy, sx, st), xx) =>
+        let cells := (idxVectors sl).flatMap fun l => (irange sy).flatMap fun y =>
+          (irange sx).flatMap fun x => (idxVectors st).map fun t => xx l y x t
+        s!"{fmtInts out} {fmtList (fmtOpt fmtInt) cells}")
+      (extractND a none roi))
   -- regular tiles, one axis
   | ["t", "count", N, n] => do
     let N ← parseInt? N; let n ← parseInt? n
